@@ -40,7 +40,7 @@ mutual
               | none => []
             callCfg fuel es sel (if scopes.isEmpty then σ else scopes) selfArg []
           else .ok (es, .fn sel scopes)
-      | .macro name => callCfg fuel es State.macroSel (if name.isEmpty then [] else name.splitOn "/") [] []
+      | .macro name => callCfg fuel es State.macroSel (if name.isEmpty then [] else splitChar name '/') [] []
       | .const name => match es.constants.get? name with
           | some c => .ok (es, c)
           | none => .error (.keyError, es)
